@@ -246,3 +246,18 @@ def opt_param_narrow_early(d, key):
     if key is None:
         return 0
     return d[key]
+
+
+def any_const_guard(c, xs, include=lambda g: True):
+    # round 4 (C13 #11): `any(<constant True> ...)` is "xs is not empty" (no quantifier); a guard implied by the path
+    # condition does not make the effects of the guarded call conditional
+    r = 0
+    if any(include(g) for g in xs) and bump(c, 1) > 0:
+        r = 1
+    return r
+
+
+def witness_transfer(xs, ys):
+    # round 4 (C03 #6): carrier of a `same-witnesses:` hint
+    z = 0
+    return z
